@@ -382,6 +382,7 @@ asn1c_save_compiled_output(arg_t *arg, const char *datadir, const char *destdir,
     asn1c_dep_chainset *deps;
     do {
         asn1p_module_t *mod;
+        int types_seen = 0;
 
         deps = asn1c_read_file_dependencies(arg, datadir);
         if(!deps && datadir) {
@@ -395,6 +396,7 @@ asn1c_save_compiled_output(arg_t *arg, const char *datadir, const char *destdir,
             TQ_FOR(arg->expr, &(mod->members), next) {
                 if(asn1_lang_map[arg->expr->meta_type][arg->expr->expr_type]
                        .type_cb) {
+                    types_seen++;
                     ret = asn1c_dump_streams(arg, deps, destdir, optc, argv);
                     if(ret) break;
                 }
@@ -407,6 +409,11 @@ asn1c_save_compiled_output(arg_t *arg, const char *datadir, const char *destdir,
         if((arg->flags & A1C_PRINT_COMPILED)
            || (arg->flags & A1C_OMIT_SUPPORT_CODE)) {
             ret = 0;    /* Success */
+            break;
+        }
+
+        if(!types_seen) {
+            FATAL("No types are defined in the given modules: nothing to compile");
             break;
         }
 
